@@ -17,7 +17,8 @@ func init() {
 			Level: "other",
 			Explanation: "Two runners can only interfere through memory both can reach; module code can create such memory only through package-level variables. Decides: (R1) the inventory of package-level variables; (R2) no store, map update or write-through-a-callee reaches memory rooted at a package-level variable outside package initialisation and that variable's own sync.Once initialiser; " +
 				"(R3) no mutable reference (map, slice, pointer, channel, interface) loaded from a package-level variable is stored into another object, captured by a closure or handed to a callee — so no per-runner structure aliases shared memory (exempt by type: *regexp.Regexp, reflect types, capture-free functions; exempt by name: the two generated recogniser constructors and the once-initialisers, which share ANTLR's read-only tables); " +
-				"(R4) goroutine literals capture nothing mutable (same rule as C10.R5).",
+				"(R4) goroutine literals capture nothing mutable (same rule as C10.R5); " +
+				"(R5) function values built once for the whole process — closures created in package initialisers, in sync.Once/OnceValue/OnceFunc initialisers and in the module functions those call — never store to or into a variable they captured (nor do closures nested in them that capture the same variables): a memo of converted functions is shared memory only through what its closures captured.",
 			NotDecided:  "races inside the ANTLR runtime's shared DFA/prediction caches (trusted, assumption A3); trace equality under concurrency",
 			Assumptions: []string{"A3", "A4 (global math/rand functions are goroutine-safe)", "A5"},
 			Trusted:     []string{"go/types", "golang.org/x/tools/go/ssa", "go/packages loader"},
@@ -355,12 +356,196 @@ func checkC18(c *Ctx) {
 			c.ob("C18.R3", ssaFuncName(f)+"/captures", w.Pos(f.Pos()), false, "a function literal in a package-level initialiser captures variables: it is shared mutable state")
 		}
 	}
+	// ----- R5: function values built once for the whole process keep no state between calls
+	c18SharedClosures(c, allowed)
 	// ----- R4
 	tmp := newCtx(c.Prop, c.Tier, w)
 	tmp.rule("C10.R5", "", 0)
 	checkGoCaptures(tmp)
 	for _, o := range tmp.Obs {
 		c.ob("C18.R4", o.Key, o.Pos, o.OK, o.How)
+	}
+}
+
+// c18SharedClosures (C18.R5): closures created while package-level state is initialised — in a package initialiser, a
+// sync.Once / sync.OnceValue / sync.OnceFunc initialiser, or a module function those call (e.g. the bridge constructors when
+// the base functions are converted once and the result is shared by every runner) — are shared by every runner of the
+// process. Such a closure must not write what it captured: no store to a captured variable, no store into a captured
+// slice, map or struct (through any chain of loads, fields and indexes), also from closures nested in it that capture the
+// same variables. Per-call state (parameters, locals, captured variables of closures created at call time) is not concerned.
+func c18SharedClosures(c *Ctx, allowed map[*ssa.Function]string) {
+	w := c.W
+	c.rule("C18.R5", "function values built once for the whole process (in package initialisers, sync.Once/OnceValue initialisers and the module functions they call) are stateless: their bodies never store to, or into, a variable they captured", 5)
+	inMod := func(f *ssa.Function) bool {
+		pp := ssaFuncPkgPath(f)
+		return strings.HasPrefix(pp, modPath) && !strings.HasSuffix(pp, "/internal/parser") && !strings.HasSuffix(pp, "/internal/testutils")
+	}
+	// build-time functions: initialisers, the function literals handed to sync.OnceValue/OnceFunc/OnceValues, and their static callees
+	build := map[*ssa.Function]string{}
+	var work []*ssa.Function
+	add := func(f *ssa.Function, why string) {
+		if f == nil || f.Blocks == nil || build[f] != "" || !inMod(f) {
+			return
+		}
+		build[f] = why
+		work = append(work, f)
+	}
+	for f, why := range allowed {
+		if f.Parent() == nil { // the literals of an initialiser are values it creates, not code it runs (those handed to sync.Once… are added below)
+			add(f, why)
+		}
+	}
+	for _, f := range w.ModuleSSAFuncs() {
+		for _, b := range f.Blocks {
+			for _, in := range b.Instrs {
+				call, ok := in.(ssa.CallInstruction)
+				if !ok {
+					continue
+				}
+				callee := call.Common().StaticCallee()
+				if callee == nil {
+					continue
+				}
+				obj := callee.Object() // instantiations of generic functions (sync.OnceValue[T]) have no package of their own
+				if obj == nil && callee.Origin() != nil {
+					obj = callee.Origin().Object()
+				}
+				if obj == nil || obj.Pkg() == nil || obj.Pkg().Path() != "sync" || !strings.HasPrefix(obj.Name(), "Once") {
+					continue
+				}
+				for _, a := range call.Common().Args {
+					switch x := a.(type) {
+					case *ssa.Function:
+						add(x, "sync."+obj.Name()+" initialiser")
+					case *ssa.MakeClosure:
+						add(x.Fn.(*ssa.Function), "sync."+obj.Name()+" initialiser")
+					}
+				}
+			}
+		}
+	}
+	type sharedClosure struct {
+		fn  *ssa.Function
+		why string
+		at  token.Pos
+	}
+	var shared []sharedClosure
+	seenShared := map[*ssa.Function]bool{}
+	for len(work) > 0 {
+		f := work[0]
+		work = work[1:]
+		why := build[f]
+		for _, b := range f.Blocks {
+			for _, in := range b.Instrs {
+				switch x := in.(type) {
+				case ssa.CallInstruction:
+					if callee := x.Common().StaticCallee(); callee != nil {
+						add(callee, why+" (through "+ssaFuncName(f)+")")
+					}
+				}
+				if mc, ok := in.(*ssa.MakeClosure); ok {
+					fn := mc.Fn.(*ssa.Function)
+					// a literal that is itself run at build time (handed to sync.Once…) is not a shared call-time closure
+					if build[fn] == "" && !seenShared[fn] && inMod(fn) {
+						seenShared[fn] = true
+						shared = append(shared, sharedClosure{fn, why, mc.Pos()})
+					}
+				}
+			}
+		}
+		// capture-free literals are plain functions: referenced, not made
+		for _, a := range f.AnonFuncs {
+			if len(a.FreeVars) == 0 && build[a] == "" && !seenShared[a] {
+				seenShared[a] = true
+				shared = append(shared, sharedClosure{a, why, a.Pos()})
+			}
+		}
+	}
+	sort.Slice(shared, func(i, j int) bool { return ssaFuncName(shared[i].fn) < ssaFuncName(shared[j].fn) })
+	var rootsAtShared func(v ssa.Value, sh map[*ssa.FreeVar]bool, depth int) *ssa.FreeVar
+	rootsAtShared = func(v ssa.Value, sh map[*ssa.FreeVar]bool, depth int) *ssa.FreeVar {
+		if depth > 12 {
+			return nil
+		}
+		switch x := v.(type) {
+		case *ssa.FreeVar:
+			if sh[x] {
+				return x
+			}
+		case *ssa.FieldAddr:
+			return rootsAtShared(x.X, sh, depth+1)
+		case *ssa.IndexAddr:
+			return rootsAtShared(x.X, sh, depth+1)
+		case *ssa.UnOp:
+			return rootsAtShared(x.X, sh, depth+1)
+		case *ssa.Field:
+			return rootsAtShared(x.X, sh, depth+1)
+		case *ssa.Index:
+			return rootsAtShared(x.X, sh, depth+1)
+		case *ssa.Slice:
+			return rootsAtShared(x.X, sh, depth+1)
+		case *ssa.Lookup:
+			return rootsAtShared(x.X, sh, depth+1)
+		case *ssa.Phi:
+			for _, e := range x.Edges {
+				if r := rootsAtShared(e, sh, depth+1); r != nil {
+					return r
+				}
+			}
+		}
+		return nil
+	}
+	var scan func(fn *ssa.Function, sh map[*ssa.FreeVar]bool, top sharedClosure, depth int)
+	n := 0
+	scan = func(fn *ssa.Function, sh map[*ssa.FreeVar]bool, top sharedClosure, depth int) {
+		if depth > 6 {
+			return
+		}
+		for _, b := range fn.Blocks {
+			for _, in := range b.Instrs {
+				var fv *ssa.FreeVar
+				what := ""
+				switch x := in.(type) {
+				case *ssa.Store:
+					fv, what = rootsAtShared(x.Addr, sh, 0), "store"
+				case *ssa.MapUpdate:
+					fv, what = rootsAtShared(x.Map, sh, 0), "map update"
+				case *ssa.MakeClosure:
+					// a closure created at call time that captures shared state carries it along
+					inner := x.Fn.(*ssa.Function)
+					ish := map[*ssa.FreeVar]bool{}
+					for i, bnd := range x.Bindings {
+						if i < len(inner.FreeVars) && rootsAtShared(bnd, sh, 0) != nil {
+							ish[inner.FreeVars[i]] = true
+						}
+					}
+					if len(ish) > 0 {
+						scan(inner, ish, top, depth+1)
+					}
+				case ssa.CallInstruction:
+					cc := x.Common()
+					if b, ok := cc.Value.(*ssa.Builtin); ok && (b.Name() == "delete" || b.Name() == "clear" || b.Name() == "copy") && len(cc.Args) > 0 {
+						fv, what = rootsAtShared(cc.Args[0], sh, 0), b.Name()
+					}
+				}
+				if fv != nil {
+					n++
+					c.ob("C18.R5", ssaFuncName(top.fn)+"/"+what+" "+fv.Name(), w.Pos(in.Pos()), false, "a function value created during "+top.why+" — shared by every runner of the process — writes the variable "+fv.Name()+" it captured ("+what+" in "+ssaFuncName(fn)+"): concurrent runners race on it and see each other's data")
+				}
+			}
+		}
+	}
+	for _, sc := range shared {
+		c.Funcs[ssaFuncName(sc.fn)] = true
+		sh := map[*ssa.FreeVar]bool{}
+		for _, fv := range sc.fn.FreeVars {
+			sh[fv] = true
+		}
+		before := n
+		scan(sc.fn, sh, sc, 0)
+		if n == before {
+			c.obN("C18.R5", ssaFuncName(sc.fn)+"/stateless", w.Pos(sc.at), true, "created during "+sc.why+"; never stores to or into a captured variable ("+itoa(len(sc.fn.FreeVars))+" captured)", len(sc.fn.FreeVars) > 0)
+		}
 	}
 }
 
